@@ -41,6 +41,35 @@ pub enum TKind {
     AtGated,
 }
 
+/// The payload carries the timer's index: the i-th timer of a history gets the i-th of these
+/// boundary values (zero, the smallest, an ordinary one, the largest the protocol type holds).
+const AFTER_PAYLOADS: [Duration; 4] = [Duration::ZERO, Duration::from_nanos(1), Duration::from_millis(300), Duration::from_nanos(u64::MAX)];
+
+fn after_payload(i: usize) -> Duration {
+    AFTER_PAYLOADS[i]
+}
+
+fn after_index(d: Duration) -> usize {
+    AFTER_PAYLOADS.iter().position(|x| *x == d).unwrap_or(usize::MAX)
+}
+
+fn at_payloads() -> [SystemTime; 4] {
+    [
+        SystemTime::UNIX_EPOCH,
+        SystemTime::UNIX_EPOCH + Duration::from_nanos(1),
+        SystemTime::UNIX_EPOCH + Duration::from_secs(1000),
+        SystemTime::UNIX_EPOCH + Duration::new(u64::MAX / 4, 999_999_999),
+    ]
+}
+
+fn at_payload(i: usize) -> SystemTime {
+    at_payloads()[i]
+}
+
+fn at_index(t: SystemTime) -> usize {
+    at_payloads().iter().position(|x| *x == t).unwrap_or(usize::MAX)
+}
+
 impl TKind {
     fn is_after(self) -> bool {
         matches!(self, TKind::After | TKind::AfterGated)
@@ -304,15 +333,15 @@ fn build(kinds: &[TKind]) -> RealTimers {
     for (i, k) in kinds.iter().enumerate() {
         let (cmd, h): (Command<TEffect, TEvent>, TimerHandle) = match k {
             TKind::After => {
-                let (b, h) = Time::<TEffect, TEvent>::notify_after(Duration::from_millis(300 + i as u64));
+                let (b, h) = Time::<TEffect, TEvent>::notify_after(after_payload(i));
                 (b.then_send(move |o| outcome_event(i, o)), h)
             }
             TKind::At => {
-                let (b, h) = Time::<TEffect, TEvent>::notify_at(SystemTime::UNIX_EPOCH + Duration::from_secs(1000 + i as u64));
+                let (b, h) = Time::<TEffect, TEvent>::notify_at(at_payload(i));
                 (b.then_send(move |o| outcome_event(i, o)), h)
             }
             TKind::AfterGated => {
-                let (b, h) = Time::<TEffect, TEvent>::notify_after(Duration::from_millis(300 + i as u64));
+                let (b, h) = Time::<TEffect, TEvent>::notify_after(after_payload(i));
                 let cmd = Command::new(move |ctx| async move {
                     let fut = b.into_future(ctx.clone());
                     let _gate = ctx.request_from_shell(TimeRequest::Now).await;
@@ -322,7 +351,7 @@ fn build(kinds: &[TKind]) -> RealTimers {
                 (cmd, h)
             }
             TKind::AtGated => {
-                let (b, h) = Time::<TEffect, TEvent>::notify_at(SystemTime::UNIX_EPOCH + Duration::from_secs(1000 + i as u64));
+                let (b, h) = Time::<TEffect, TEvent>::notify_at(at_payload(i));
                 let cmd = Command::new(move |ctx| async move {
                     let fut = b.into_future(ctx.clone());
                     let _gate = ctx.request_from_shell(TimeRequest::Now).await;
@@ -397,7 +426,7 @@ impl RealTimers {
             let TEffect::Time(r) = e;
             match r.operation.clone() {
                 TimeRequest::NotifyAfter { id, duration } => {
-                    let i = (std::time::Duration::from(duration).as_millis() as usize).wrapping_sub(300);
+                    let i = after_index(std::time::Duration::from(duration));
                     if !self.kinds.get(i).map_or(false, |k| k.is_after()) {
                         return Err(TFail { key: "request/payload-altered".into(), what: format!("unexpected NotifyAfter payload {:?}", r.operation) });
                     }
@@ -410,7 +439,7 @@ impl RealTimers {
                     out.push(RefOut::Request(i));
                 }
                 TimeRequest::NotifyAt { id, instant } => {
-                    let i = (SystemTime::from(instant).duration_since(SystemTime::UNIX_EPOCH).map_or(0, |d| d.as_secs()) as usize).wrapping_sub(1000);
+                    let i = at_index(SystemTime::from(instant));
                     if !self.kinds.get(i).map_or(false, |k| !k.is_after()) {
                         return Err(TFail { key: "request/payload-altered".into(), what: format!("unexpected NotifyAt payload {:?}", r.operation) });
                     }
@@ -808,19 +837,19 @@ pub mod legacy {
             match event {
                 LEvent::StartAfter => {
                     let i = model.ids.len();
-                    let id = caps.time.notify_after(Duration::from_millis(300 + i as u64), move |r| LEvent::Outcome(i, r));
+                    let id = caps.time.notify_after(after_payload(i), move |r| LEvent::Outcome(i, r));
                     model.ids.push(id);
                 }
                 LEvent::StartAt => {
                     let i = model.ids.len();
                     let id = caps
                         .time
-                        .notify_at(SystemTime::UNIX_EPOCH + Duration::from_secs(1000 + i as u64), move |r| LEvent::Outcome(i, r));
+                        .notify_at(at_payload(i), move |r| LEvent::Outcome(i, r));
                     model.ids.push(id);
                 }
                 LEvent::StartAfterCleared => {
                     let i = model.ids.len();
-                    let id = caps.time.notify_after(Duration::from_millis(300 + i as u64), move |r| LEvent::Outcome(i, r));
+                    let id = caps.time.notify_after(after_payload(i), move |r| LEvent::Outcome(i, r));
                     model.ids.push(id);
                     caps.time.clear(id);
                 }
@@ -828,7 +857,7 @@ pub mod legacy {
                     let i = model.ids.len();
                     let id = caps
                         .time
-                        .notify_at(SystemTime::UNIX_EPOCH + Duration::from_secs(1000 + i as u64), move |r| LEvent::Outcome(i, r));
+                        .notify_at(at_payload(i), move |r| LEvent::Outcome(i, r));
                     model.ids.push(id);
                     caps.time.clear(id);
                 }
@@ -960,7 +989,10 @@ pub mod legacy {
                 match e {
                     Effect::Time(r) => match r.operation.clone() {
                         TimeRequest::NotifyAfter { id, duration } => {
-                            let i = (std::time::Duration::from(duration).as_millis() as usize).wrapping_sub(300);
+                            let i = after_index(std::time::Duration::from(duration));
+                            if i >= ids.len() {
+                                return Err(TFail { key: "request/payload-altered".into(), what: format!("unexpected NotifyAfter payload {:?}", r.operation) });
+                            }
                             ids[i] = Some(id);
                             reqs[i] = Some(r);
                             got_request = Some(i);
@@ -969,7 +1001,10 @@ pub mod legacy {
                             }
                         }
                         TimeRequest::NotifyAt { id, instant } => {
-                            let i = (SystemTime::from(instant).duration_since(SystemTime::UNIX_EPOCH).map_or(0, |d| d.as_secs()) as usize).wrapping_sub(1000);
+                            let i = at_index(SystemTime::from(instant));
+                            if i >= ids.len() {
+                                return Err(TFail { key: "request/payload-altered".into(), what: format!("unexpected NotifyAt payload {:?}", r.operation) });
+                            }
                             ids[i] = Some(id);
                             reqs[i] = Some(r);
                             got_request = Some(i);
@@ -1150,11 +1185,11 @@ pub mod viacore {
                     let i = model.handles.len();
                     let (cmd, h) = match k {
                         TKind::After | TKind::AfterGated => {
-                            let (b, h) = Time::<Effect, CEvent>::notify_after(Duration::from_millis(300 + i as u64));
+                            let (b, h) = Time::<Effect, CEvent>::notify_after(after_payload(i));
                             (b.then_send(move |o| CEvent::Outcome(i, matches!(o, TimerOutcome::Completed(_)))), h)
                         }
                         TKind::At | TKind::AtGated => {
-                            let (b, h) = Time::<Effect, CEvent>::notify_at(SystemTime::UNIX_EPOCH + Duration::from_secs(1000 + i as u64));
+                            let (b, h) = Time::<Effect, CEvent>::notify_at(at_payload(i));
                             (b.then_send(move |o| CEvent::Outcome(i, matches!(o, TimerOutcome::Completed(_)))), h)
                         }
                     };
@@ -1272,7 +1307,7 @@ pub mod viacore {
                 match e {
                     Effect::Time(r) => match r.operation.clone() {
                         TimeRequest::NotifyAfter { id, duration } => {
-                            let i = (std::time::Duration::from(duration).as_millis() as usize).wrapping_sub(300);
+                            let i = after_index(std::time::Duration::from(duration));
                             if i >= ids.len() || ids[i].is_some() {
                                 return Err(TFail { key: "request/duplicate-or-altered".into(), what: format!("{:?}", r.operation) });
                             }
@@ -1284,7 +1319,7 @@ pub mod viacore {
                             obs.push(RefOut::Request(i));
                         }
                         TimeRequest::NotifyAt { id, instant } => {
-                            let i = (SystemTime::from(instant).duration_since(SystemTime::UNIX_EPOCH).map_or(0, |d| d.as_secs()) as usize).wrapping_sub(1000);
+                            let i = at_index(SystemTime::from(instant));
                             if i >= ids.len() || ids[i].is_some() {
                                 return Err(TFail { key: "request/duplicate-or-altered".into(), what: format!("{:?}", r.operation) });
                             }
